@@ -404,7 +404,10 @@ def judge(it, argv, info, r, before, after, recorded, ctx, mode):
             nrows += 1
             m = ROW_RE.match(row[0])
             if not m:
-                kind = "hardened-address-index" if re.match(r"^m/\d+'/[01]'/\d+'/0/\d+'$", row[0]) else "not-bip44-shaped"
+                kind = "not-bip44-shaped"
+                if re.match(r"^m/\d+'/[01]'/\d+'/0/\d+'$", row[0]):
+                    # the listed finding: an accepted interval that itself reaches into [2^31, 2^32)
+                    kind = "hardened-address-index[interval>=2^31]" if max(interval) > H else "hardened-address-index[interval<2^31]"
                 raise Violation("C20/rows/%s" % kind, "%s: row path %r is not m/P'/c'/a'/0/i with a non-hardened address "
                                 "index (accepted interval %r)" % (what, row[0], interval))
             if int(m.group(3)) != account or not (interval[0] <= int(m.group(4)) < interval[1]):
